@@ -82,6 +82,10 @@ impl<'a> Checker<'a> {
                 let nm = rm::hex(&x.name_hash);
                 if let Some(e) = &x.repo_decode_err {
                     self.viol("C02/xorb-undecodable", format!("xorb {nm}: {e}"), scn, si);
+                    // a stored xorb that the repository's own reader refuses is not one "a validating server accepts"
+                    if x.validator_ok != Some(true) {
+                        self.viol("C15/validator-rejects", format!("xorb {nm}: validate_cas_object -> {:?}; reading it back fails with {e}", x.validator_ok), scn, si);
+                    }
                     continue;
                 }
                 match &x.ref_chunks {
@@ -138,7 +142,8 @@ impl<'a> Checker<'a> {
             }
             // (a session of another client with its own shard cache leaves nothing in this one by construction)
             for x in obs.new_xorbs.iter().filter(|_| !ss.foreign_no_cache) {
-                let list = &known_xorbs[&x.name_hash];
+                // (an undecodable xorb was reported above and has no chunk list)
+                let Some(list) = known_xorbs.get(&x.name_hash) else { continue };
                 let missing = list.iter().filter(|(h, _)| !indexed.contains(h)).count();
                 if missing > 0 {
                     self.viol(
@@ -463,7 +468,7 @@ impl<'a> Checker<'a> {
             // xorb or found); a session run by another client with a shard cache of its own contributes nothing
             if !ss.foreign_no_cache {
                 for x in &obs.new_xorbs {
-                    for (h, _) in &known_xorbs[&x.name_hash] {
+                    for (h, _) in known_xorbs.get(&x.name_hash).map(|l| l.as_slice()).unwrap_or(&[]) {
                         prior_chunks.insert(*h);
                     }
                 }
@@ -732,6 +737,15 @@ pub fn family(name: &str, tier: Tier) -> Vec<Scenario> {
                 }
             }
         },
+        // many small sessions in one process, then each one's content again: the shard manager's index has a cap
+        // (configuration K12: 20 entries) that eight one-atom sessions stay far below, so every repeat must dedup
+        "F12" => {
+            let mut sessions: Vec<SessionSpec> = (0..8u8).map(|a| SessionSpec::seq(vec![FileSpec::new(&[a], 0, Feed::Whole)])).collect();
+            for a in [7u8, 6, 0] {
+                sessions.push(SessionSpec::seq(vec![FileSpec::new(&[a], 0, Feed::Whole)]));
+            }
+            v.push(Scenario { family: "F12".into(), sessions });
+        },
         // the store already holds what this client uploads, but this client's shard cache has never heard of it
         // (another client with a shard cache of its own uploaded the same content): the upload must still be
         // recorded in this client's shards, so that its own repeat session transfers nothing
@@ -860,6 +874,11 @@ pub fn family(name: &str, tier: Tier) -> Vec<Scenario> {
             // resolved by the worker, which knows the atom sizes: cut = usize::MAX marks "all cuts"
             for w in words(3, tier.pick(2, 3)) {
                 v.push(one("F6c", vec![FileSpec::new(&w, 2, Feed::Cut(usize::MAX))]));
+            }
+            // two blocks of which the second first overflows the xorb that holds the first block's data and then
+            // repeats that data (four different atoms: three fill a xorb under K1, the fourth cuts it)
+            for w in [vec![0u8, 1, 2, 3, 0], vec![0, 1, 2, 3, 1, 0], vec![0, 0, 1, 2, 3, 0]] {
+                v.push(one("F6c", vec![FileSpec::new(&w, 0, Feed::Cut(usize::MAX))]));
             }
         },
         // production constants (64 KiB target, default limits): raw LCG contents with sizes at and past the
